@@ -33,7 +33,7 @@ RULE = ("differential monitor: the same call on the specialised object and on th
 def cells(tier, seed):
     out = []
     Rs = (1, 3) if tier == "quick" else (1, 2, 4)
-    Ds = (1, 2, 3) if tier == "quick" else (1, 2, 3, 4)
+    Ds = (1, 2, 4) if tier == "quick" else (1, 2, 3, 4, 5)
     reps = 1 if tier == "quick" else 4
     for pair in ("diag_measure", "diag_pdf", "rank1", "linear", "constant"):
         for R in Rs:
